@@ -116,8 +116,11 @@ PROPS = {
         "level_text": "reply_hosts_eligible, reply_count, whitelist_calls_bounded, error_iff_empty, full_supply, failed_hosts_left_out are Lean theorems about Pool.requestHosts for every store state, every store choice, every outcome of every whitelist call; the store's choice is validated against the ActiveHosts contract (C12) on every implementation call. The real pool is driven over fake host connections scripted to acknowledge, fail or hang.",
         "level_note": POOL_NOTE + " The order in which acknowledgements arrive is not modelled (replies are compared as sets); the 5 s whitelist timeout is exercised with a shorter request deadline.",
         "lean_modules": ["Vipnode.Props.C08"],
-        "streams": pool_streams(60, 600) + pool_streams(150, 1500, gen="pool-peers", prefix="peers"),
-        "monitor": monitors.c08_acknowledged,
+        "streams": pool_streams(60, 600) + pool_streams(150, 1500, gen="pool-peers", prefix="peers") + [
+            # hosts behind the real transport (built binary, WebSocket) answering the instruction with an RPC error
+            {"name": "poolbin-ws", "component": "poolbin", "cases": {"quick": 16, "thorough": 200}},
+        ],
+        "monitor": monitors.c08_c09,
     },
     "C09": {
         "level_text": "callable_iff: after every history of registrations and closes the registry lets the pool call host h on connection c exactly when h's most recent registration was on c and c was not closed since; close_old_keeps_new, closed_not_callable, requests_use_current_registration, numRemotes_eq. Compared with the real registry (connect over distinct connection objects, CloseRemote, NumRemotes, which connection receives vipnode_whitelist), and with the built pool binary: hosts register over real WebSocket connections that end as dropped sockets, close frames of every class or protocol errors, and a light client's peer request shows which connections the pool still calls.",
@@ -135,7 +138,10 @@ PROPS = {
         "streams": [
             {"name": "conc-memory", "component": "conc", "opts": {"driver": "memory"}, "cases": {"quick": 16, "thorough": 200}, "no_shrink": True, "race": True},
             {"name": "conc-badger", "component": "conc", "opts": {"driver": "badger"}, "cases": {"quick": 16, "thorough": 200}, "no_shrink": True, "race": True},
-        ] + store_streams(150, 1500, prefix="snapshots"),
+        ] + store_streams(150, 1500, prefix="snapshots") + [
+            # concurrent requests through the RPC dispatch itself (Server.Handle / Method.Call), both directions of a pipe pair
+            {"name": "rpc-storm", "component": "rpc", "gen": "rpc-storm", "cases": {"quick": 6, "thorough": 40}, "no_shrink": True, "race": True},
+        ],
         "monitor": monitors.c10_conc,
         "race": True,
     },
